@@ -3,6 +3,8 @@
 
 package rockredis
 
+import "github.com/youzan/ZanRedisDB/common"
+
 // Lemma functions for the deductive verifier in /verif (govc).  They are never
 // called by production code; the verifier checks them modularly against the
 // contracts of the functions they call (never against the callee bodies), and
@@ -125,4 +127,16 @@ func lemmaTTLConsistent(h *headerMetaValue, ts int64) (int64, bool) {
 
 func lemmaHeaderRoundTrip(h *headerMetaValue, h2 *headerMetaValue) (int, error) {
 	return h2.decode(h.encodeWithData())
+}
+
+// ---- C11: an error for which the apply loop skips AbortBatch left the shared batch untouched ----
+
+func lemmaNoAbortHMset(db *RockDB, ts int64, key []byte, args []common.KVRecord) (error, bool) {
+	err := db.HMset(ts, key, args...)
+	return err, IsNeedAbortError(err)
+}
+
+func lemmaNoAbortHDel(db *RockDB, ts int64, key []byte, args [][]byte) (error, bool) {
+	_, err := db.HDel(ts, key, args...)
+	return err, IsNeedAbortError(err)
 }
